@@ -29,7 +29,7 @@ def graph_case(draw, max_tasks=8, min_tasks=1, kinds=("cmd", "exp", "group", "co
                kind_weights=(3, 3, 1, 1), p_par=0.75, p_seed_den=3,
                densities=("dense", "sparse", "sparse", "thin", "thin"), seeded=True, outcomes="none", max_bad=3,
                jobs=(None, 1, 2, 2, 3, 3, 4, 5), flags=("again",), tape_max=40, foreign=False,
-               wide=False, tape_hi=15):
+               wide=False, tape_hi=15, rmout=False):
     pkgs = draw(st.sampled_from(PKG_SETS))
     sizes = [k for k in range(min_tasks, max_tasks + 1)]
     n = draw(st.sampled_from(sizes + [k for k in sizes if k >= 4] * 3))
@@ -92,8 +92,13 @@ def graph_case(draw, max_tasks=8, min_tasks=1, kinds=("cmd", "exp", "group", "co
             if not cands:
                 break
             i = draw(st.sampled_from(cands))
-            kind = draw(st.sampled_from(["exit", "exit", "signal", "launch"]))
-            if kind == "exit":
+            kind = draw(st.sampled_from(["exit", "exit", "signal", "launch"] + (["rmout"] if rmout else [])))
+            if kind == "rmout":
+                # exits 0, but has removed its own output directory: whether that counts as a success is not decided by
+                # the statements (callers judge both readings); recording its arguments cannot work
+                oc[str(i)] = {"rmout": True}
+                tasks[i]["args"] = ["a", 1]
+            elif kind == "exit":
                 oc[str(i)] = {"exit": 10 + i}
             elif kind == "signal":
                 oc[str(i)] = {"signal": [1, 2, 9, 15, 11][i % 5] + 0, "sigidx": i}
@@ -473,3 +478,23 @@ def shape_labels(case):
     if len({case["tasks"][x]["pkg"] for x in clo}) > 1:
         labels.append("multi_pkg")
     return sorted(set(labels))
+
+
+def judge_ambiguous(case, res, check):
+    """Outcome kind `rmout` (the command exits 0 after removing its own output directory) may be reported as a success or
+    as a failure: judge the run under every reading and keep the most favourable one."""
+    amb = [i for i, o in case.get("outcomes", {}).items() if "rmout" in o]
+    if not amb:
+        return check(case, res)
+    best = None
+    for mask in range(1 << len(amb)):
+        c = dict(case)
+        c["outcomes"] = {i: o for i, o in case["outcomes"].items()
+                         if i not in amb or (mask >> amb.index(i)) & 1}
+        oc = check(c, res)
+        if best is None or len(oc.violations) < len(best.violations):
+            best = oc
+        if not oc.violations:
+            break
+    best.labels = list(best.labels) + ["command_removed_its_output_directory"]
+    return best
